@@ -12,9 +12,9 @@ Definition ws0 : summary nat := fresh nat wit_joint wit_kw (Some [(["m"; "centre
 (* the hypotheses of C12_summary_history_irrelevant are met, with reads on both sides of the child's creation *)
 Example ws_history :
   coherent nat ws0 /\ Forall (is_read nat) [ORead nat; OInstance nat] /\ Forall (is_read nat) [ORead nat] /\
-  (exists c, run nat wit_bin ([ORead nat; OInstance nat] ++ OSub nat wit_child :: [ORead nat]) ws0 = Some c /\
+  (exists c, run nat wit_bin true ([ORead nat; OInstance nat] ++ OSub nat wit_child :: [ORead nat]) ws0 = Some c /\
              max_vector nat c = Some [4; 7] /\ means_vector nat c = Some [5; 8]) /\
-  (exists c0, subsamples nat ws0 wit_child = Some c0 /\ max_vector nat c0 = Some [4; 7]).
+  (exists c0, subsamples nat true ws0 wit_child = Some c0 /\ max_vector nat c0 = Some [4; 7]).
 Proof.
   split; [left; reflexivity|]. split; [repeat constructor|]. split; [repeat constructor|].
   split; eexists; vm_compute; repeat split; reflexivity.
@@ -27,13 +27,13 @@ Proof. vm_compute. split; reflexivity. Qed.
 (* what the invariant excludes: a child that kept its parent's path cache (the copy made without resetting `_paths`)
    looks its sample up under the parent's names - here silently swapping centre and sigma *)
 Example ws_stale_cache_swaps :
-  forall c0, subsamples nat ws0 wit_child = Some c0 ->
+  forall c0, subsamples nat true ws0 wit_child = Some c0 ->
   max_vector nat {| sm_model := sm_model nat c0; sm_max := sm_max nat c0; sm_med := sm_med nat c0;
                     sm_paths := Some (all_paths nat wit_joint); sm_inst := None |} = Some [7; 4].
 Proof. intros c0 H. vm_compute in H. inversion H; subst. vm_compute. reflexivity. Qed.
 
-(* guard of C12_child_instance_own_partial met: only vector reads, the child's instance is its own *)
+(* C12_child_instance_own: the joint instance is read first, the child's instance is still its own *)
 Example ws_instance_own :
-  exists c, run nat wit_bin ([ORead nat] ++ OSub nat wit_child :: [ORead nat]) ws0 = Some c /\
+  exists c, run nat wit_bin true ([ORead nat; OInstance nat] ++ OSub nat wit_child :: [OInstance nat; ORead nat]) ws0 = Some c /\
             instance_value nat wit_bin c = Some (IObj "G" [("centre", IV 4); ("sigma", IV 7)]).
 Proof. eexists; vm_compute; split; reflexivity. Qed.
